@@ -254,12 +254,54 @@ func (w *World) ResolveOpen(text, prefix string) *MPage {
 			return w.ThreadPage(Item{Kind: "actor", A: j})
 		}
 		for k, act := range a.Outbox {
-			if text == w.ActURL(prefix, j, k) && act.Bad == "" && !a.NoOutbox {
+			if text == w.ActURL(prefix, j, k) && (act.Bad == "" || act.Bad == "no-actor") && !a.NoOutbox {
 				return w.ThreadPage(Item{Kind: "act", A: j, B: k})
 			}
 		}
 	}
+	// a collection opened directly is a list page of its entries as they stand (nobody vouches for them: a reply
+	// collection's entries are not compared with a parent, so an entry that replies to something else is a post like any other)
+	for i, p := range w.Posts {
+		if text == w.PostURL(prefix, i)+"/replies" && !p.NoReplies {
+			page := &MPage{Cursor: 1}
+			for _, e := range p.Replies {
+				if e.Bad == "missing" {
+					page.List = append(page.List, Item{Kind: "fail"})
+				} else {
+					page.List = append(page.List, Item{Kind: "post", A: e.Post})
+				}
+			}
+			return page
+		}
+	}
+	for j := range w.Actors {
+		if text == w.ActorURL(prefix, j)+"/outbox" && w.directOutbox(j) {
+			page := &MPage{Cursor: 1}
+			for k, act := range w.Actors[j].Outbox {
+				if act.Bad == "missing" {
+					page.List = append(page.List, Item{Kind: "fail"})
+				} else {
+					page.List = append(page.List, Item{Kind: "act", A: j, B: k})
+				}
+			}
+			return page
+		}
+	}
 	return w.ThreadPage(Item{Kind: "fail"})
+}
+
+// directOutbox: actor j's outbox can be opened by its own address and every entry is an item the model can name
+func (w *World) directOutbox(j int) bool {
+	a := w.Actors[j]
+	if a.NoOutbox || w.Hostile > 0 || a.OutboxLoop != "" {
+		return false
+	}
+	for _, act := range a.Outbox {
+		if act.Bad == "other-actor" {
+			return false
+		}
+	}
+	return true
 }
 
 // ---- transitions (DESIGN.md Appendix A)
@@ -420,7 +462,9 @@ func (m *Model) normalKey(key byte, prefix string) {
 			m.push(m.W.ActorListPage(list))
 		}
 	case 'a':
-		if has && cur.Kind == "act" {
+		if has && cur.Kind == "act" && m.W.Actors[cur.A].Outbox[cur.B].Bad == "no-actor" {
+			m.push(m.W.ThreadPage(Item{Kind: "fail"})) // nobody to show: an error item
+		} else if has && cur.Kind == "act" {
 			m.push(m.W.ThreadPage(Item{Kind: "actor", A: cur.A}))
 		}
 	case 'o':
@@ -453,9 +497,17 @@ func (w *World) openCandidates(prefix string) []string {
 	for j, a := range w.Actors {
 		out = append(out, w.ActorURL(prefix, j))
 		for k, act := range a.Outbox {
-			if act.Bad == "" && !a.NoOutbox {
+			if (act.Bad == "" || act.Bad == "no-actor") && !a.NoOutbox {
 				out = append(out, w.ActURL(prefix, j, k))
 			}
+		}
+		if w.directOutbox(j) {
+			out = append(out, w.ActorURL(prefix, j)+"/outbox")
+		}
+	}
+	for i, p := range w.Posts {
+		if !p.NoReplies && w.Hostile == 0 {
+			out = append(out, w.PostURL(prefix, i)+"/replies")
 		}
 	}
 	return out
